@@ -89,20 +89,29 @@ Theorem C12_twoway_entry_exact : forall S R k geno t1 t2 f m, mem_ok (s_mem S) -
 Proof. exact twoway_entry_exact. Qed.
 Print Assumptions C12_twoway_entry_exact.
 
-Theorem C12_threeway_entry_partial : forall S R k geno t1 t2 r f m, mem_ok (s_mem S) -> D_tables S R k -> f <> m ->
+(** every entry, the repeated last parent (female = male, female1 = male1) and the dihybrid selfs included *)
+Theorem C12_threeway_entry_exact : forall S R k geno t1 t2 r f m, mem_ok (s_mem S) -> D_tables S R k ->
   threeway_entry S geno t1 t2 r f m == three_truth S R k geno t1 t2 r f m.
-Proof. exact threeway_entry_partial. Qed.
-Print Assumptions C12_threeway_entry_partial.
+Proof. exact threeway_entry_exact. Qed.
+Print Assumptions C12_threeway_entry_exact.
 
-Theorem C12_fourway_entry_partial : forall S R k geno t1 t2 f2 m2 f1 m1, mem_ok (s_mem S) -> D_tables S R k -> f1 <> m1 ->
+Theorem C12_fourway_entry_exact : forall S R k geno t1 t2 f2 m2 f1 m1, mem_ok (s_mem S) -> D_tables S R k ->
   fourway_entry S geno t1 t2 f2 m2 f1 m1 == four_truth S R k (row geno f2) (row geno m2) (row geno f1) (row geno m1) t1 t2.
-Proof. exact fourway_entry_partial. Qed.
-Print Assumptions C12_fourway_entry_partial.
+Proof. exact fourway_entry_exact. Qed.
+Print Assumptions C12_fourway_entry_exact.
 
-Theorem C12_dihybrid_entry_partial : forall S R k geno geno1 t1 t2 f m, mem_ok (s_mem S) -> D_tables S R k -> f <> m ->
+Theorem C12_dihybrid_entry_exact : forall S R k geno geno1 t1 t2 f m, mem_ok (s_mem S) -> D_tables S R k ->
   dihybrid_entry S geno geno1 t1 t2 f m == four_truth S R k (row geno1 f) (row geno f) (row geno1 m) (row geno m) t1 t2.
-Proof. exact dihybrid_entry_partial. Qed.
-Print Assumptions C12_dihybrid_entry_partial.
+Proof. exact dihybrid_entry_exact. Qed.
+Print Assumptions C12_dihybrid_entry_exact.
+
+(** a repeated last parent reduces the cross by one way: the enumerated value of (f x f) x r is that of the two-way cross f x r,
+    and that of (f2 x m2) x (f1 x f1) is that of the three-way cross (f2 x m2) x f1 *)
+Theorem C12_repeated_parent_truth : forall S R k geno t1 t2,
+  (forall r f, three_truth S R k geno t1 t2 r f f == two_truth S R k geno t1 t2 f r) /\
+  (forall f2 m2 f1, four_truth S R k (row geno f2) (row geno m2) (row geno f1) (row geno f1) t1 t2 == three_truth S R k geno t1 t2 f1 f2 m2).
+Proof. intros. split; intros; [apply three_truth_repeated | apply four_truth_repeated]. Qed.
+Print Assumptions C12_repeated_parent_truth.
 
 (** ** MULTI-LOCUS exactness with selfing: every scheme, every number of loci, every linkage-group layout, every depth k.
     [layout_ok S ps k]: mem admissible; the linkage groups tile [0,L); the gap in front of every group but the first has p = 1/2;
@@ -123,46 +132,58 @@ Theorem C12_twoway_entry_multilocus : forall S ps k t1 t2, layout_ok S ps k -> f
 Proof. exact twoway_entry_multilocus. Qed.
 Print Assumptions C12_twoway_entry_multilocus.
 
-Theorem C12_threeway_entry_multilocus_partial : forall S ps k t1 t2, layout_ok S ps k -> forall geno r f m, f <> m ->
+Theorem C12_threeway_entry_multilocus : forall S ps k t1 t2, layout_ok S ps k -> forall geno r f m,
   let L := Datatypes.S (length ps) in
   threeway_entry S geno t1 t2 r f m ==
   covL L (EL_three ps k (alleles (row geno r) L) (alleles (row geno f) L) (alleles (row geno m) L)) (ucol (s_u S) t1 L) (ucol (s_u S) t2 L).
 Proof. exact threeway_entry_multilocus. Qed.
-Print Assumptions C12_threeway_entry_multilocus_partial.
+Print Assumptions C12_threeway_entry_multilocus.
 
-Theorem C12_fourway_entry_multilocus_partial : forall S ps k t1 t2, layout_ok S ps k -> forall geno f2 m2 f1 m1, f1 <> m1 ->
+Theorem C12_fourway_entry_multilocus : forall S ps k t1 t2, layout_ok S ps k -> forall geno f2 m2 f1 m1,
   let L := Datatypes.S (length ps) in
   fourway_entry S geno t1 t2 f2 m2 f1 m1 ==
   covL L (EL_four ps k (alleles (row geno f2) L) (alleles (row geno m2) L) (alleles (row geno f1) L) (alleles (row geno m1) L))
        (ucol (s_u S) t1 L) (ucol (s_u S) t2 L).
 Proof. exact fourway_entry_multilocus. Qed.
-Print Assumptions C12_fourway_entry_multilocus_partial.
+Print Assumptions C12_fourway_entry_multilocus.
 
-Theorem C12_dihybrid_entry_multilocus_partial : forall S ps k t1 t2, layout_ok S ps k -> forall geno geno1 f m, f <> m ->
+Theorem C12_dihybrid_entry_multilocus : forall S ps k t1 t2, layout_ok S ps k -> forall geno geno1 f m,
   let L := Datatypes.S (length ps) in
   dihybrid_entry S geno geno1 t1 t2 f m ==
   covL L (EL_four ps k (alleles (row geno1 f) L) (alleles (row geno f) L) (alleles (row geno1 m) L) (alleles (row geno m) L))
        (ucol (s_u S) t1 L) (ucol (s_u S) t2 L).
 Proof. exact dihybrid_entry_multilocus. Qed.
-Print Assumptions C12_dihybrid_entry_multilocus_partial.
+Print Assumptions C12_dihybrid_entry_multilocus.
 
-(** the unvisited index patterns are wrong (faithful model, witnesses by computation) *)
-Theorem C12_threeway_repeated_parent_refuted : exists S R k geno r f,
-  mem_ok (s_mem S) /\ D_tables S R k /\ threeway_entry S geno 0 0 r f f == 0 /\ ~ three_truth S R k geno 0 0 r f f == 0.
-Proof. exact threeway_repeated_parent_refuted. Qed.
-Print Assumptions C12_threeway_repeated_parent_refuted.
+(** regression witnesses about the FORMER code ([old_..._entry]: `for male in range(0,female)`, the diagonal of the last two axes never
+    visited): it agreed with the repaired code off that diagonal, reported 0 on it although the enumeration is non-zero, and the
+    repaired entry equals the enumeration there (witnesses by computation) *)
+Theorem C12_old_entries_offdiag : forall S geno geno1 t1 t2,
+  (forall r f m, f <> m -> old_threeway_entry S geno t1 t2 r f m = threeway_entry S geno t1 t2 r f m) /\
+  (forall f2 m2 f1 m1, f1 <> m1 -> old_fourway_entry S geno t1 t2 f2 m2 f1 m1 = fourway_entry S geno t1 t2 f2 m2 f1 m1) /\
+  (forall f m, f <> m -> old_dihybrid_entry S geno geno1 t1 t2 f m = dihybrid_entry S geno geno1 t1 t2 f m).
+Proof. exact old_entries_offdiag. Qed.
+Print Assumptions C12_old_entries_offdiag.
 
-Theorem C12_fourway_repeated_parent_refuted : exists S R k geno f2 m2 f1,
-  mem_ok (s_mem S) /\ D_tables S R k /\ fourway_entry S geno 0 0 f2 m2 f1 f1 == 0 /\
-  ~ four_truth S R k (row geno f2) (row geno m2) (row geno f1) (row geno f1) 0 0 == 0.
-Proof. exact fourway_repeated_parent_refuted. Qed.
-Print Assumptions C12_fourway_repeated_parent_refuted.
+Theorem C12_old_threeway_repeated_parent_refuted : exists S R k geno r f,
+  mem_ok (s_mem S) /\ D_tables S R k /\ old_threeway_entry S geno 0 0 r f f == 0 /\ ~ three_truth S R k geno 0 0 r f f == 0 /\
+  threeway_entry S geno 0 0 r f f == three_truth S R k geno 0 0 r f f.
+Proof. exact old_threeway_repeated_parent_refuted. Qed.
+Print Assumptions C12_old_threeway_repeated_parent_refuted.
 
-Theorem C12_dihybrid_self_refuted : exists S R k geno geno1 f,
-  mem_ok (s_mem S) /\ D_tables S R k /\ dihybrid_entry S geno geno1 0 0 f f == 0 /\
-  ~ four_truth S R k (row geno1 f) (row geno f) (row geno1 f) (row geno f) 0 0 == 0.
-Proof. exact dihybrid_self_refuted. Qed.
-Print Assumptions C12_dihybrid_self_refuted.
+Theorem C12_old_fourway_repeated_parent_refuted : exists S R k geno f2 m2 f1,
+  mem_ok (s_mem S) /\ D_tables S R k /\ old_fourway_entry S geno 0 0 f2 m2 f1 f1 == 0 /\
+  ~ four_truth S R k (row geno f2) (row geno m2) (row geno f1) (row geno f1) 0 0 == 0 /\
+  fourway_entry S geno 0 0 f2 m2 f1 f1 == four_truth S R k (row geno f2) (row geno m2) (row geno f1) (row geno f1) 0 0.
+Proof. exact old_fourway_repeated_parent_refuted. Qed.
+Print Assumptions C12_old_fourway_repeated_parent_refuted.
+
+Theorem C12_old_dihybrid_self_refuted : exists S R k geno geno1 f,
+  mem_ok (s_mem S) /\ D_tables S R k /\ old_dihybrid_entry S geno geno1 0 0 f f == 0 /\
+  ~ four_truth S R k (row geno1 f) (row geno f) (row geno1 f) (row geno f) 0 0 == 0 /\
+  dihybrid_entry S geno geno1 0 0 f f == four_truth S R k (row geno1 f) (row geno f) (row geno1 f) (row geno f) 0 0.
+Proof. exact old_dihybrid_self_refuted. Qed.
+Print Assumptions C12_old_dihybrid_self_refuted.
 
 (** the D tables built by mk_setup (what the correspondence shards evaluate) satisfy [D_tables] *)
 Theorem C12_mk_setup_tables : forall p u chroms mem k R, in_range p chroms ->
@@ -199,13 +220,13 @@ Theorem C12_zero_for_identical_parents : forall S geno geno1 t1 t2,
 Proof. exact zero_for_identical_parents. Qed.
 Print Assumptions C12_zero_for_identical_parents.
 
+(** for EVERY index map pi (a permutation, or a selection with repeats): no side condition on the indices *)
 Theorem C12_taxa_equivariant : forall S geno geno1 geno' geno1' (pi : nat -> nat) t1 t2,
   (forall a, row geno' a = row geno (pi a)) -> (forall a, row geno1' a = row geno1 (pi a)) ->
-  (forall f m, (f = m <-> pi f = pi m) -> twoway_entry S geno' t1 t2 f m == twoway_entry S geno t1 t2 (pi f) (pi m)) /\
-  (forall r f m, (f = m <-> pi f = pi m) -> threeway_entry S geno' t1 t2 r f m == threeway_entry S geno t1 t2 (pi r) (pi f) (pi m)) /\
-  (forall f2 m2 f1 m1, (f1 = m1 <-> pi f1 = pi m1) ->
-     fourway_entry S geno' t1 t2 f2 m2 f1 m1 == fourway_entry S geno t1 t2 (pi f2) (pi m2) (pi f1) (pi m1)) /\
-  (forall f m, (f = m <-> pi f = pi m) -> dihybrid_entry S geno' geno1' t1 t2 f m == dihybrid_entry S geno geno1 t1 t2 (pi f) (pi m)).
+  (forall f m, twoway_entry S geno' t1 t2 f m == twoway_entry S geno t1 t2 (pi f) (pi m)) /\
+  (forall r f m, threeway_entry S geno' t1 t2 r f m == threeway_entry S geno t1 t2 (pi r) (pi f) (pi m)) /\
+  (forall f2 m2 f1 m1, fourway_entry S geno' t1 t2 f2 m2 f1 m1 == fourway_entry S geno t1 t2 (pi f2) (pi m2) (pi f1) (pi m1)) /\
+  (forall f m, dihybrid_entry S geno' geno1' t1 t2 f m == dihybrid_entry S geno geno1 t1 t2 (pi f) (pi m)).
 Proof. exact taxa_equivariant. Qed.
 Print Assumptions C12_taxa_equivariant.
 
@@ -242,16 +263,57 @@ Theorem C12_linkage_free_D : forall k, cov_D1s 0 k == 1 /\ cov_D2s 0 k == 1.
 Proof. exact linkage_free_D. Qed.
 Print Assumptions C12_linkage_free_D.
 
-(** the genic matrices never write their diagonal (numpy.empty): no value is reported there *)
-Theorem C12_genic_diagonal_refuted : forall u p geno geno1 tr f, genic_entry u p geno geno1 tr f f = None.
-Proof. exact genic_diagonal_refuted. Qed.
-Print Assumptions C12_genic_diagonal_refuted.
+Theorem C12_genic_threeway : forall u p tr gR gF gM, allele01 gR -> allele01 gF -> allele01 gM ->
+  genic_tri u p tr (tafreq gR gR) (tafreq gF gF) (tafreq gM gM) ==
+  sumQ (map (fun i => (1#4) * (2 * (eff u tr gF gR i * eff u tr gF gR i + eff u tr gM gR i * eff u tr gM gR i)
+                             + eff u tr gF gM i * eff u tr gF gM i)) (ix p)).
+Proof. exact genic_threeway. Qed.
+Print Assumptions C12_genic_threeway.
 
-Theorem C12_genic_entry_partial : forall u p geno tr f m, f <> m -> allele01 (row geno f) -> allele01 (row geno m) ->
-  exists v, genic_entry u p geno geno tr f m = Some v /\
-            v == sumQ (map (fun i => eff u tr (row geno f) (row geno m) i * cov_D1s 0 (Some 0%nat) * eff u tr (row geno f) (row geno m) i) (ix p)).
-Proof. exact genic_entry_partial. Qed.
-Print Assumptions C12_genic_entry_partial.
+Theorem C12_genic_fourway : forall u p tr g1 g2 g3 g4, allele01 g1 -> allele01 g2 -> allele01 g3 -> allele01 g4 ->
+  genic_quad u p tr (tafreq g1 g1) (tafreq g2 g2) (tafreq g3 g3) (tafreq g4 g4) ==
+  sumQ (map (fun i => (1#4) * (eff u tr g2 g1 i * eff u tr g2 g1 i + eff u tr g3 g1 i * eff u tr g3 g1 i + eff u tr g3 g2 i * eff u tr g3 g2 i
+                             + eff u tr g4 g1 i * eff u tr g4 g1 i + eff u tr g4 g2 i * eff u tr g4 g2 i + eff u tr g4 g3 i * eff u tr g4 g3 i)) (ix p)).
+Proof. exact genic_fourway. Qed.
+Print Assumptions C12_genic_fourway.
+
+(** every entry of every genic matrix, the diagonal of the last two parent axes included, is the linkage-free (i = j, D = 1) part of the
+    corresponding genetic block *)
+Theorem C12_genic_entry_exact : forall u p geno tr f m, allele01 (row geno f) -> allele01 (row geno m) ->
+  genic_entry u p geno geno tr f m ==
+  sumQ (map (fun i => eff u tr (row geno f) (row geno m) i * cov_D1s 0 (Some 0%nat) * eff u tr (row geno f) (row geno m) i) (ix p)).
+Proof. exact genic_entry_exact. Qed.
+Print Assumptions C12_genic_entry_exact.
+
+Theorem C12_genic_dihybrid_entry_exact : forall u p geno geno1 tr f m,
+  allele01 (row geno f) -> allele01 (row geno1 f) -> allele01 (row geno m) -> allele01 (row geno1 m) ->
+  genic_entry u p geno geno1 tr f m ==
+  sumQ (map (fun i => let a0 := row geno f in let a1 := row geno1 f in let b0 := row geno m in let b1 := row geno1 m in
+     (1#4) * (eff u tr a0 a1 i * eff u tr a0 a1 i + eff u tr b1 a1 i * eff u tr b1 a1 i + eff u tr b1 a0 i * eff u tr b1 a0 i
+            + eff u tr b0 a1 i * eff u tr b0 a1 i + eff u tr b0 a0 i * eff u tr b0 a0 i + eff u tr b0 b1 i * eff u tr b0 b1 i)) (ix p)).
+Proof. exact genic_dihybrid_entry_exact. Qed.
+Print Assumptions C12_genic_dihybrid_entry_exact.
+
+Theorem C12_genic_threeway_entry_exact : forall u p geno tr r f m, allele01 (row geno r) -> allele01 (row geno f) -> allele01 (row geno m) ->
+  genic3_entry u p geno geno tr r f m ==
+  sumQ (map (fun i => let gR := row geno r in let gF := row geno f in let gM := row geno m in
+     (1#4) * (2 * (eff u tr gF gR i * eff u tr gF gR i + eff u tr gM gR i * eff u tr gM gR i) + eff u tr gF gM i * eff u tr gF gM i)) (ix p)).
+Proof. exact genic3_entry_exact. Qed.
+Print Assumptions C12_genic_threeway_entry_exact.
+
+Theorem C12_genic_fourway_entry_exact : forall u p geno tr f2 m2 f1 m1,
+  allele01 (row geno f2) -> allele01 (row geno m2) -> allele01 (row geno f1) -> allele01 (row geno m1) ->
+  genic4_entry u p geno geno tr f2 m2 f1 m1 ==
+  sumQ (map (fun i => let g1 := row geno f2 in let g2 := row geno m2 in let g3 := row geno f1 in let g4 := row geno m1 in
+     (1#4) * (eff u tr g2 g1 i * eff u tr g2 g1 i + eff u tr g3 g1 i * eff u tr g3 g1 i + eff u tr g3 g2 i * eff u tr g3 g2 i
+            + eff u tr g4 g1 i * eff u tr g4 g1 i + eff u tr g4 g2 i * eff u tr g4 g2 i + eff u tr g4 g3 i * eff u tr g4 g3 i)) (ix p)).
+Proof. exact genic4_entry_exact. Qed.
+Print Assumptions C12_genic_fourway_entry_exact.
+
+(** regression witness: the FORMER two-way / dihybrid genic code (numpy.empty, only male < female written) reported no value on its diagonal *)
+Theorem C12_old_genic_diagonal_refuted : forall u p geno geno1 tr f, old_genic_entry u p geno geno1 tr f f = None.
+Proof. exact old_genic_diagonal_refuted. Qed.
+Print Assumptions C12_old_genic_diagonal_refuted.
 
 (** ** usefulness criterion: a value accepted exactly by [uc_ok]'s two conditions is mean + i * sqrt(var) *)
 Theorem C12_uc_def : forall si mean var x y, 0 <= si -> 0 <= x - mean -> (x - mean) * (x - mean) == si * si * var ->
